@@ -176,7 +176,10 @@ func suiteC12(s *Suite, rng *Rng, tier string) {
 		}
 		honest := pl[0].(*gabi.ProofD)
 		pks := []*gabikeys.PublicKey{pk}
-		run := func(kind string, p *gabi.ProofD) {
+		var run func(kind string, p *gabi.ProofD)
+		attrsOf := cred.Attributes
+		run = func(kind string, p *gabi.ProofD) {
+			cred := struct{ Attributes []*gbig.Int }{attrsOf}
 			_, acc, _ := verifyCase(s, fmt.Sprintf("%d:e2e:%s", kp.Bits, kind), false, pks, ctx, nonce, false, nil, gabi.ProofList{p})
 			s.Nontrivial[fmt.Sprint(round, kind)] = true
 			if kind == "honest" && !acc {
@@ -260,6 +263,57 @@ func suiteC12(s *Suite, rng *Rng, tier string) {
 				delete(p.RangeProofs, hidx)
 				run(fmt.Sprintf("moved-to-index-%d", target), p)
 			}
+		}
+		// a proof with an index gap: a zero-valued attribute contributes R^0 = 1, so it can be left out of both the
+		// disclosed and the hidden set without changing the reconstruction; a range proof on the hidden attribute
+		// behind the gap must still be checked
+		{
+			top := bi(int64(10 + rng.Intn(1000)))
+			zc := issueCredential(kp, secret, []*gbig.Int{rng.Bits(50), bi(0), top}, rng)
+			b4, err := zc.CreateDisclosureProofBuilder([]int{2}, nil, false)
+			if err != nil {
+				panic(err)
+			}
+			pl4, _ := gabi.ProofBuilderList{b4}.BuildProofList(ctx, nonce, false)
+			h4 := pl4[0].(*gabi.ProofD)
+			stT, _ := rangeproof.NewStatement(rangeproof.GreaterOrEqual, top)
+			b5, _ := zc.CreateDisclosureProofBuilder([]int{2}, map[int][]*rangeproof.Statement{3: {stT}}, false)
+			pl5, _ := gabi.ProofBuilderList{b5}.BuildProofList(ctx, nonce, false)
+			h5 := pl5[0].(*gabi.ProofD)
+			attrsOf = zc.Attributes
+			for _, dropZero := range []bool{true, false} {
+				tag := ""
+				if dropZero {
+					tag = "zero-attribute-omitted:"
+				}
+				p := cloneProofD(h4)
+				if dropZero {
+					delete(p.ADisclosed, 2)
+				}
+				run(tag+"no-range-proof", p)
+				// a range proof (false statement: attribute >= attribute + 1000) that was never part of the challenge
+				p = cloneProofD(h4)
+				if dropZero {
+					delete(p.ADisclosed, 2)
+				}
+				junk := cloneProofD(h5).RangeProofs[3][0]
+				junk.K = new(gbig.Int).Add(top, bi(1000))
+				p.RangeProofs = map[int][]*rangeproof.Proof{3: {junk}}
+				run(tag+"unhashed-false-range-proof-on-top-index", p)
+				// honest range proof behind the gap, then its bound raised
+				p = cloneProofD(h5)
+				if dropZero {
+					delete(p.ADisclosed, 2)
+				}
+				run(tag+"honest-range-proof", p)
+				p = cloneProofD(h5)
+				if dropZero {
+					delete(p.ADisclosed, 2)
+				}
+				p.RangeProofs[3][0].K = new(gbig.Int).Add(top, bi(1000))
+				run(tag+"bound-raised", p)
+			}
+			attrsOf = cred.Attributes
 		}
 		// transplant from another credential
 		{
@@ -517,7 +571,6 @@ func suiteC13(s *Suite, rng *Rng, tier string) {
 		"7th supported table value in quick, all in thorough), 256- and 1024-bit keys; the model recomputes prover output from observed randomness and the verifier " +
 		"reconstruction; several statements per attribute and proof; distinct by statement"
 }
-
 
 // c13FullProofs: a holder for whom the statement is true always gets an accepted proof, wherever the attribute sits
 // among disclosed and hidden ones
